@@ -45,6 +45,8 @@ def run(repo: Repo, chk: Check):
     chk.rule("R01.g", "the opcode column of the operator tables is the documented instruction of the operator", floor=20)
     chk.rule("R01.h", "operands of non-commutative constructs are the compiled sub-expressions in source order: (left,right), "
                       "(target,value), (0,operand), select(test,body,orelse), range(start,end,step)", floor=10)
+    chk.rule("R01.m", "the jump emitted for 'break' / 'continue' is attached to the break / continue statement itself (in statement order), "
+                      "not to an enclosing statement of the loop body", floor=2)
     chk.rule("R01.l", "device, slot, batch and stack accesses emit their operands in the order the instruction takes them (device/hash, "
                       "name hash, slot index, type, batch mode, address, value; shared with R09.e)", floor=14)
     chk.rule("R01.k", "a return omits the jump to the function's end label only when it is the last statement of the function body "
@@ -62,6 +64,7 @@ def run(repo: Repo, chk: Check):
     chk.guarded(r01g, repo, chk)
     chk.guarded(r01h, repo, chk)
     chk.guarded(r01i, repo, chk)
+    chk.guarded(r01m, repo, chk)
     from .c09 import r09e
     chk.guarded(r09e, repo, chk, "R01.l")
     from .c06 import r06h
@@ -788,3 +791,32 @@ def r01i(repo, chk):
         chk.bad("R01.i", key, f"condition {ctext} of the select is produced by {sorted(kinds)}: not a recognised encoding of the index", None, s.where())
     if n < 3:
         raise AnalysisError(f"R01.i: only {n} select sites in the constant-list lowering")
+
+
+# ---------------------------------------------------------------------- R01.m
+def r01m(repo, chk):
+    g = repo.mod("generate_code")
+    hs = repo.handlers()
+    for nt in ("Break", "Continue"):
+        q = f"CompilerPassGenerateCode.{hs[nt]}"
+        fn = g.func(q)
+        chk.saw("generate_code", q)
+        cfg, rd = fn_ctx(fn)
+        param = fn.args.args[1].arg
+        sites = [s for s in collect_sites(repo, ["generate_code"]) if s.fn is fn and s.opcodes is not TOP and set(s.opcodes) == {"j"}]
+        if not sites:
+            raise AnalysisError(f"{q}: jump emission not found")
+        for s in sites:
+            call = getattr(s.call, "parent", None)
+            recv = call.func.value if isinstance(call, ast.Call) and isinstance(call.func, ast.Attribute) else None
+            ids = live_ids(cfg, s.call)
+            ok = False
+            detail = norm(recv) if recv is not None else "?"
+            if isinstance(recv, ast.Attribute) and recv.attr == "_ndata" and isinstance(recv.value, ast.Name) and ids:
+                ds = rd.at(ids[0], recv.value.id)
+                ok = recv.value.id == param and bool(ds) and all(d.kind == "param" for d in ds)
+                if not ok:
+                    detail += " where " + recv.value.id + " = " + ", ".join(sorted({norm(d.value) if d.value is not None else d.kind for d in ds}))
+            chk.judge("R01.m", f"generate_code:{q}:jump is attached to the {nt.lower()} statement", ok,
+                      f"the jump is added to {detail}: that is an enclosing statement of the loop body, whose own code is emitted before its sub-statements — "
+                      f"in 'if c: effect(); {nt.lower()}' the jump runs before effect()", {"receiver": detail}, s.where())
